@@ -521,10 +521,10 @@ fn dims_space(thorough: bool, query_carrier: bool) -> Vec<Vec<u8>> {
             full(4),
             full(4),
             if query_carrier { vec![0] } else { full(2) },
-            full(32),
+            (0..16).chain([16, 17, 18, 20, 24, 31]).collect(),
             full(5),
-            full(10),
-            full(11),
+            (0..8).chain([9]).collect(),
+            (0..9).chain([10]).collect(),
             full(6),
             full(5),
             full(2),
